@@ -2,6 +2,7 @@ package seq
 
 import (
 	"bytes"
+	"context"
 	"encoding/json"
 	"errors"
 	"fmt"
@@ -185,7 +186,13 @@ type c06SCase struct {
 	Peer      string `json:"peer"` // echo-same | echo-other | none
 	Second    string `json:"second,omitempty"`
 	Runes     int    `json:"runes,omitempty"` // 0 ASCII reason; 2/3/4: reason built from 2-/3-/4-byte UTF-8 runes (same byte length)
+	// Before: what the application has open on the endpoint when it calls Close:
+	// "writer-open" (a Writer with 3 bytes written and not closed), "writer-empty" (a Writer nothing
+	// was written to), "reader-open" (a Reader of a 6-byte message with 2 bytes consumed)
+	Before string `json:"before,omitempty"`
 }
+
+var c06Befores = []string{"writer-open", "writer-empty", "reader-open"}
 
 var c06Extra = []int64{-1, 65536, 66536, 100000, 1 << 31}
 var c06RepCodes = []int64{1000, 1001, 1011, 3000, 4999, 1005}
@@ -196,7 +203,7 @@ const c06SweepCodes = 65536
 func c06SenderTotal() int {
 	sweep := (c06SweepCodes + len(c06Extra)) * 2 * 2 * 3
 	reasons := 131 * len(c06RepCodes) * 2 * 3 * 4
-	return sweep + reasons + 4
+	return sweep + reasons + 4 + len(c06Befores)*len(c06RepCodes)*2*3
 }
 
 // c06Reason builds a reason of exactly n bytes; runes > 0 uses multi-byte
@@ -247,6 +254,16 @@ func c06SenderCase(i int) c06SCase {
 		return c06SCase{Kind: "close", Client: client, Code: code, ReasonLen: i, Peer: peer, Runes: runes}
 	}
 	i -= sweep + reasons
+	if i >= 4 {
+		i -= 4
+		peer := c06Peers[i%3]
+		i /= 3
+		client := i%2 == 1
+		i /= 2
+		code := c06RepCodes[i%len(c06RepCodes)]
+		i /= len(c06RepCodes)
+		return c06SCase{Kind: "close", Client: client, Code: code, ReasonLen: 5, Peer: peer, Before: c06Befores[i]}
+	}
 	return c06SCase{Kind: "closenow", Client: i%2 == 1, Second: []string{"closenow", "close"}[i/2%2]}
 }
 
@@ -284,9 +301,23 @@ func c06SenderOne(c *fw.Ctx, cs c06SCase) {
 	}
 	reason := c06Reason(cs.ReasonLen, cs.Runes, int(cs.Code&0xff))
 	in, echoCode, echoes := c06PeerReply(cs)
+	if cs.Before == "reader-open" {
+		in = append(frame.Data(frame.OpBinary, true, !cs.Client, []byte("sixsix")).Encode(nil), in...)
+	}
 	t := mxNewTransport(in)
 	conn := mxConn(t, cs.Client, "")
 	defer conn.CloseNow()
+	switch cs.Before {
+	case "writer-open", "writer-empty":
+		if wr, werr := conn.Writer(context.Background(), websocket.MessageText); werr == nil && cs.Before == "writer-open" {
+			wr.Write([]byte("abc"))
+		}
+	case "reader-open":
+		if _, r, rerr := conn.Reader(context.Background()); rerr == nil {
+			var b [2]byte
+			r.Read(b[:])
+		}
+	}
 
 	var err error
 	if p := fw.Recover(func() { err = conn.Close(websocket.StatusCode(cs.Code), reason) }); p != "" {
